@@ -388,6 +388,71 @@ def stage_limits(wd, V, rng, tier):
     return runs
 
 
+def stage_scheduled(wd, V):
+    """C13, server-wide: the reads of a scheduled job (a dserver running a mapreduce query on its own files) count against
+    MaxConcurrentCats like those of any session.  The job's file is a named pipe: its read holds the slot exactly as long as
+    this stage keeps the writing end open.  With MaxConcurrentCats = 1 a dcat session must wait meanwhile and must proceed
+    once the job's read has ended."""
+    import subprocess
+    base = os.path.join(wd, "e2e-sched")
+    d = os.path.join(base, "data")
+    os.makedirs(d, exist_ok=True)
+    for x in (wd, base, d):
+        os.chmod(x, 0o755)
+    fifo, reg = os.path.join(d, "job.fifo"), os.path.join(d, "reg.log")
+    os.mkfifo(fifo)
+    os.chmod(fifo, 0o666)
+    with open(reg, "w") as fh:
+        for k in range(300):
+            fh.write("REGLINE %d\n" % k)
+    os.chmod(reg, 0o644)
+    job = {"Name": "vjob", "Enable": True, "AllowFrom": ["127.0.0.1"], "TimeRange": [0, 24], "Files": fifo,
+           "Query": "from STATS select count($line) group by $hostname", "Outfile": "./vjob.csv"}
+    cl = Cluster(os.path.join(base, "c"), 1, server_cfg={"MaxConcurrentCats": 1, "MaxConcurrentTails": 5, "Schedule": [job]})
+    wfd = None
+    try:
+        deadline = time.time() + 25
+        while time.time() < deadline and wfd is None:
+            try:
+                wfd = os.open(fifo, os.O_WRONLY | os.O_NONBLOCK)     # succeeds only once somebody reads the pipe
+            except OSError:
+                time.sleep(0.1)
+        if wfd is None:
+            V.diverge("scheduled-job stage: the job never opened its file within 25 s (stage not run)")
+            return 0
+        p = subprocess.Popen(cl.client_cmd("dcat", reg), cwd=cl.wd, env=vlib.goenv({"HOME": cl.wd}), stdin=subprocess.DEVNULL,
+                             stdout=subprocess.PIPE, stderr=subprocess.PIPE, bufsize=0)
+        time.sleep(3.0)
+        os.set_blocking(p.stdout.fileno(), False)
+        try:
+            early = os.read(p.stdout.fileno(), 1 << 20) or b""
+        except BlockingIOError:
+            early = b""
+        os.set_blocking(p.stdout.fileno(), True)
+        if b"REGLINE" in early:
+            V.violation("MaxConcurrentCats = 1 and a scheduled job of the server is reading a file: a dcat session reads another file at the same time",
+                        {"early_output": early[:300].decode(errors="replace")})
+        os.write(wfd, b"".join(b"INFO|1002-071143|1|stats.go:56|8|13|7|0.21|471h0m21s|MAPREDUCE:STATS|currentConnections=%d|lifetimeConnections=1\n" % k for k in range(20)))
+        os.close(wfd)
+        wfd = None
+        try:
+            rest, err = p.communicate(timeout=60)
+        except subprocess.TimeoutExpired:
+            p.kill()
+            rest, err = p.communicate()
+            V.violation("the scheduled job's read has ended, 60 s later the dcat session that waited for the slot has not finished",
+                        {"output_bytes": len(early) + len(rest)})
+            return 1
+        n = (early + rest).count(b"REGLINE")
+        if n != 300 or p.returncode != 0:
+            V.violation("dcat after the scheduled job's read: %d of 300 lines, exit %s" % (n, p.returncode), {"stderr": err[-300:].decode(errors="replace")})
+        return 1
+    finally:
+        if wfd is not None:
+            os.close(wfd)
+        cl.stop()
+
+
 def stage_tail_stall(wd, V, tier="quick"):
     """the real dcat binary, serverless, plain mode: a consumer that stops reading for 6.5 s just before the end - the server
     side has handed everything over (its queues are empty, it gives up waiting for the close handshake after 5 s) while the
